@@ -2,7 +2,7 @@
 
     The first theorems are about component lists; the text-level rewritings (comments, blank lines, header, BOM,
     white space, CR LF, explicit id 0) are theorems about the reader (Model/Parse.v) further down. *)
-From Cteepbd Require Import Model.Balance Model.Components Proofs.ColFacts Proofs.EpFacts Proofs.DataEquiv Proofs.NormFacts Proofs.WfFacts Proofs.NormPerm.
+From Cteepbd Require Import Model.Balance Model.Components Proofs.ColFacts Proofs.EpFacts Proofs.DataEquiv Proofs.NormFacts Proofs.WfFacts Proofs.NormPerm Proofs.NormRename.
 From Coq Require Import Permutation.
 Open Scope Qc_scope.
 
@@ -44,6 +44,31 @@ Theorem C10_rename_balance : forall n meta nd fs k area lm d f,
           (energy_performance (mkComponents meta (map (fun e => e_set_id e (f (e_id e))) d) nd) fs k area lm).
 Proof. intros. apply (equiv_energy_performance n). now apply rename_equiv. Qed.
 
+(** from the declared components: renumbering the systems consistently (any injective renumbering) gives the renumbered
+    normalised components, in the order of the new numbers — hence the same evaluation *)
+Theorem C10_normalize_rename : forall f data, (forall a b : Z, f a = f b -> a = b) ->
+  match normalize_data (rename f data), normalize_data data with
+  | Ok d', Ok d => Permutation d' (rename f d) | Err a, Err b => a = b | _, _ => False end.
+Proof.
+  intros f data Hinj. pose proof (normalize_data_rename f Hinj data) as R. destruct (normalize_data data); exact R.
+Qed.
+
+Theorem C10_rename_declared : forall n meta nd fs k area lm f data d,
+  (forall a b : Z, f a = f b -> a = b) -> wf n data -> normalize_data data = Ok d ->
+  exists d', normalize_data (rename f data) = Ok d' /\
+    ep_same (energy_performance (mkComponents meta d nd) fs k area lm) (energy_performance (mkComponents meta d' nd) fs k area lm).
+Proof.
+  intros n meta nd fs k area lm f data d Hinj W H. pose proof (normalize_data_rename f Hinj data) as R. rewrite H in R.
+  destruct (normalize_data (rename f data)) as [d'|]; [|contradiction]. exists d'. split; [reflexivity|].
+  cbn in R. pose proof (normalize_wf n data d W H) as Wd.
+  pose proof (rename_equiv n d f Wd) as E1. fold (rn f) in E1. fold (rename f d) in E1.
+  pose proof (perm_equiv n (rename f d) d' (de_wf' _ _ _ E1) (Permutation_sym R)) as E2.
+  apply (equiv_energy_performance n). constructor.
+  - exact Wd. - exact (de_wf' _ _ _ E2).
+  - intros p Hp t. rewrite (de_sum _ _ _ E1 p Hp t). apply (de_sum _ _ _ E2 p Hp t).
+  - intros p Hp. rewrite (de_ex _ _ _ E1 p Hp). apply (de_ex _ _ _ E2 p Hp).
+Qed.
+
 (** every model function is a function: repeated evaluation gives the same result; what varies between
     runs in the implementation is the iteration order of hash sets, i.e. the order in which systems are
     processed by normalisation: what each system receives does not depend on it *)
@@ -64,6 +89,8 @@ Print Assumptions C10_normalize_reorder.
 Print Assumptions C10_reorder_declared.
 Print Assumptions C10_split.
 Print Assumptions C10_rename_balance.
+Print Assumptions C10_normalize_rename.
+Print Assumptions C10_rename_declared.
 Print Assumptions C10_completion_order_independent.
 Print Assumptions C10_aux_order_independent.
 Print Assumptions C10_sorted.
